@@ -40,6 +40,34 @@ type In struct {
 	Addr  int   // address index
 	Form  int   // 0 = 4-byte, 1 = 16-byte form of the address
 	TTL   int64 // Register: ttl (ns); ClockJump: amount (ns)
+	// Slack: the amounts of the clock jumps that overlap this operation in the recorded history (0 = none). An
+	// operation reads the clock somewhere between its call and its return, not necessarily at its linearization
+	// point: with a jump inside that window the value it used may lie that much behind.
+	Slack [4]int64
+}
+
+// nows lists the clock values an operation may have used, given the state's clock at its linearization point.
+func nows(s *State, in In) []int64 {
+	out := []int64{s.now}
+	for _, j := range in.Slack {
+		if j <= 0 {
+			continue
+		}
+		for _, v := range append([]int64(nil), out...) {
+			if v-j >= 0 {
+				dup := false
+				for _, o := range out {
+					if o == v-j {
+						dup = true
+					}
+				}
+				if !dup {
+					out = append(out, v-j)
+				}
+			}
+		}
+	}
+	return out
 }
 
 // Out is the observable result.
@@ -208,10 +236,17 @@ func Step(s *State, in In, out Out) []*State {
 		// removes exactly the names with expiry < now; expiry == now is not pinned down
 		var keep []rec
 		var boundary []rec
+		earliest := s.now
+		for _, n := range nows(s, in) {
+			if n < earliest {
+				earliest = n
+			}
+		}
 		for _, r := range s.recs {
 			switch {
-			case r.expiry < s.now:
-			case r.expiry == s.now:
+			case r.expiry < earliest:
+			case r.expiry <= s.now:
+				// at the boundary, or expired only by the later of the clock values the sweep may have read
 				boundary = append(boundary, r)
 			default:
 				keep = append(keep, r)
@@ -256,7 +291,11 @@ func stepAbsent(s *State, in In, out Out, stale bool) []*State {
 		if !out.OK {
 			return nil
 		}
-		return []*State{s.with(rec{name: in.Name, group: in.Group, owners: 1 << uint(in.Addr), expiry: s.now + in.TTL, refresh: ttlBit(in.TTL)})}
+		var res []*State
+		for _, n := range nows(s, in) {
+			res = append(res, s.with(rec{name: in.Name, group: in.Group, owners: 1 << uint(in.Addr), expiry: n + in.TTL, refresh: ttlBit(in.TTL)}))
+		}
+		return res
 	default: // Query, Release, Refresh, Mark on an absent name: error, no change
 		if out.OK {
 			return nil
@@ -276,18 +315,24 @@ func stepPresent(s *State, r rec, in In, out Out) []*State {
 			n := r
 			n.owners |= bit
 			n.refresh |= ttlBit(in.TTL)
-			a := n
-			a.expiry = s.now + in.TTL
 			// whether a (re-)registration of a group member restarts the TTL is not pinned down
-			return []*State{s.with(n), s.with(a)}
+			res := []*State{s.with(n)}
+			for _, now := range nows(s, in) {
+				a := n
+				a.expiry = now + in.TTL
+				res = append(res, s.with(a))
+			}
+			return res
 		}
 		var res []*State
 		if !r.group && !in.Group && r.owners == bit && out.OK {
 			// the owner of a unique name registers it again: success (refresh) is acceptable
-			n := r
-			n.expiry = s.now + in.TTL
-			n.refresh |= ttlBit(in.TTL)
-			res = append(res, s.with(n))
+			for _, now := range nows(s, in) {
+				n := r
+				n.expiry = now + in.TTL
+				n.refresh |= ttlBit(in.TTL)
+				res = append(res, s.with(n))
+			}
 		}
 		if !out.OK {
 			res = append(res, s)
@@ -343,9 +388,11 @@ func stepPresent(s *State, r rec, in In, out Out) []*State {
 		var res []*State
 		for i, t := range TTLChoices {
 			if r.refresh&(1<<uint(i)) != 0 {
-				n := r
-				n.expiry = s.now + t
-				res = append(res, s.with(n))
+				for _, now := range nows(s, in) {
+					n := r
+					n.expiry = now + t
+					res = append(res, s.with(n))
+				}
 			}
 		}
 		return res
